@@ -2,7 +2,7 @@ import CalicoVerif.Util.Proto
 import CalicoVerif.Model.C23
 /-! Driver for C23.  Ops (decimal naturals; `-` = none / empty):
   `new GRACE` | `insync` | `block b AFF ENTRIES` (AFF = node | `-` | `v` = a non-host, e.g. virtual, affinity) | `blockdel b` | `cnode n K` | `cnodedel n` | `knode n 0|1` |
-  `pod id inCache inApi node evicted IPS` | `poddel id fromCache fromApi` | `dirty n` | `tick minutes` | `sync 0|1` | `dump`
+  `pod id inCache inApi node evicted IPS` | `poddel id fromCache fromApi` | `dirty n` | `failrel` (the next ReleaseIPs call fails) | `tick minutes` | `sync 0|1` | `dump`
   ENTRIES = `-` | entry(`;`entry)*, entry = `ord:HANDLE:kind:node:pod:seq`, kind ∈ p t u w;  IPS = `-` | b`.`o(`,`b`.`o)*
 Output of `sync`: `rel=… rba=… rha=… ok|work`; of `dump`: the collector's bookkeeping; otherwise `ok`.
 -/
@@ -35,6 +35,7 @@ def parseBool : String → Option Bool
 
 def parseOp : List String → Option Op
   | ["insync"] => some .inSync
+  | ["failrel"] => some .failRel
   | ["block", b, a, es] => do
     let aff ← if a == "v" then some Aff.other else (optNat a).map (fun o => match o with | some n => Aff.host n | none => Aff.none)
     pure (.block (← b.toNat?) aff (← parseEntries es))
